@@ -223,13 +223,26 @@ func (x *idxInfo) isEntryWrite(i ssa.Instruction) bool {
 
 func c01R2(c *Ctx, r *Report, x *idxInfo) {
 	for _, f := range x.funcs {
-		// only functions that tombstone (directly or through a callee, depth 2)
+		// functions that tombstone (directly or through a callee, depth 2), and helpers they hand the removed vertex to
 		if !x.tombstones(f, 2) {
-			continue
+			called := false
+			for _, g := range x.funcs {
+				if g == f || !x.tombstones(g, 2) {
+					continue
+				}
+				eachInstr(g, func(i ssa.Instruction) {
+					if cc := asCall(i); cc != nil && cc.StaticCallee() == f {
+						called = true
+					}
+				})
+			}
+			if !called {
+				continue
+			}
 		}
 		for _, ifi := range allIfs(f) {
 			b, ok := ifi.Cond.(*ssa.BinOp)
-			if !ok || b.Op != token.EQL {
+			if !ok || b.Op != token.EQL || isNilConst(b.X) || isNilConst(b.Y) {
 				continue
 			}
 			if !(x.isEntryLoad(b.X) || x.isEntryLoad(b.Y)) {
